@@ -189,7 +189,28 @@ func pickRecipe(r *gen.R, sc *stdCfg) recipe {
 			}
 		}
 	}
-	switch r.Intn(18) {
+	switch r.Intn(19) {
+	case 18:
+		// user names that are valid UTF-8 but not ASCII (and other non-ASCII octets)
+		u8 := r.PickS("jos\u00e9", "m\u00fcller", "\u7528\u6237", "bad\xff\xfe")
+		switch r.Intn(4) {
+		case 0:
+			rc := authorCmd(u8, "show", "version")
+			rc.Pkts[0].Label = "author/non-ascii-user"
+			return rc
+		case 1:
+			rc := acct(u8, 2, "task_id=9")
+			rc.Pkts[0].Label = "acct/non-ascii-user"
+			return rc
+		case 2:
+			rc := papLogin(u8, "pw", 1)
+			rc.Pkts[0].Label = "authen/pap/non-ascii-user"
+			return rc
+		}
+		rc := asciiLogin(u8, false, "pw", 0)
+		rc.Name, rc.Kind = "ascii-non-ascii-user", "odd"
+		rc.Pkts[1].Label = "authen/ascii/continue-non-ascii-user"
+		return rc
 	case 16:
 		rc := asciiLogin(string(r.Printable(r.Pick(65400, 65500, 65531))), false, "pw", 0)
 		rc.Name, rc.Kind = "ascii-64KiB-user", "odd"
